@@ -187,6 +187,7 @@ fn count_state(local: &mut BTreeMap<&'static str, u64>, p: &Pos, legal: &[Mv]) {
 pub fn visit(ctx: &BoardCtx, p: &Pos) {
     ctx.states.fetch_add(1, std::sync::atomic::Ordering::Relaxed);
     let fen = p.to_fen();
+    set_current_case(&fen);
     if !p.is_legal_position() {
         // never hand the subject an illegal position (DESIGN §6.1)
         ctx.rep.machinery(format!("illegal position generated by the harness: {}", fen));
